@@ -619,7 +619,11 @@ endmodule
 	result += "\t\t#100;\n\n"
 	result += "\t\treset = 1'b0;\n"
 
-	for _, rule := range sbox.Rules {
+	var rules []simbox.Rule
+	if sbox != nil {
+		rules = sbox.Rules
+	}
+	for _, rule := range rules {
 		if rule.Timec == simbox.TIMEC_ABS && rule.Action == simbox.ACTION_SET {
 			result += "\t\t#" + strconv.Itoa(int(rule.Tick)) + ";\n"
 			result += "\t\t" + rule.Object + " = " + rule.Extra + ";\n"
